@@ -234,6 +234,14 @@ func vkEval(build func() *dns.Msg) vkVerdict {
 		case refErr == nil && cap(owned) != len(owned):
 			return vkVerdict{viol: "PackClone returned a slice with spare capacity"}
 		}
+		if refErr == nil {
+			// the caller keeps these bytes (cache entry): later packs must not reach them
+			vkTry(vkPolluterShared(), nil)
+			vkTry(vkPolluterManyNames(), nil)
+			if !bytes.Equal(owned, refBytes) {
+				return vkVerdict{viol: "PackClone's result changed when later messages were packed: it aliases the pooled buffer"}
+			}
+		}
 		if !vkMsgInadmissible(m2) && vkDump(m2) != b2 {
 			return vkVerdict{viol: "PackClone modified a message made of library records"}
 		}
